@@ -132,9 +132,11 @@ def explore(run, scale=1):
         jobs.append((kind, seed, i % 2 == 1, i % 6 == 0))
     for k in ([10, 50, 100, 150, 200, 300, 400] if run.tier == "thorough" else [10, 100, 200, 300]):
         jobs.append(("chain", k, False, False)); jobs.append(("nested", min(k, 150), False, False))
-    ctx = multiprocessing.get_context("fork")
-    with ctx.Pool(min(progfam.WORKERS, max(1, len(jobs) // 4))) as pool:
-        recs = pool.map(_work, jobs, chunksize=2)
+    recs = []
+    for job, rec in progfam.parallel_map(_work, jobs):
+        if rec is progfam.LOST: run.count("skipped:worker died or hung"); continue
+        recs.append(rec)
+    recs.sort(key=lambda r: (str(r.get("kind")), str(r.get("seed")), bool(r.get("optimize"))))
     for rec in recs:
         if "harness_error" in rec: raise common.Infra("harness error: " + rec["harness_error"])
         for k, v in (rec.get("features") or {}).items(): run.count("feature:" + k, v)
